@@ -234,6 +234,7 @@ class State:
         self.defs = []         # definitional constraints (sqrt, ...)
         self.side = []         # (pc tuple, cond, msg) side conditions of models (x>=0 for sqrt, b!=0 for div)
         self.events = []       # recorder output of overrides
+        self.sqrts = []        # (s, X): s is the fresh variable standing for sqrt(X)
         self.visits = 0
 
     def fork(self):
@@ -245,6 +246,7 @@ class State:
         s.defs = list(self.defs)
         s.side = list(self.side)
         s.events = list(self.events)
+        s.sqrts = list(self.sqrts)
         s.visits = self.visits
         return s
 
